@@ -79,8 +79,27 @@ NSTEER = """ - concurrency style: deferred unlock ↔ explicit unlocks in a shor
  - naming and placement: renaming a private field or method, moving a private function to another file of the same package, turning a function literal
    stored in a variable into a private function, splitting a long function at a natural seam."""
 
+BSTEER2 = """ - the edges of the exported API: nil or zero-valued arguments, empty slices and strings, a call repeated or made in an unusual order (Close before Run,
+   AddHandler after Close, Stop twice, Subscribe after Close), a default that only applies when a field is left zero;
+ - arithmetic on durations, counters and sizes: rounding, truncation, overflow, off-by-one at a limit, a unit mix-up, `<` against `<=` at a boundary the tests never hit;
+ - changes that span two places of which only one is adapted: a struct field added with a zero default, a helper whose meaning of a parameter or result changes,
+   a constant or metadata key used by a writer and a reader, a generic type parameter or reflection-based name used by two components;
+ - observability code that touches state: a log field, a metric or a debug helper that reads shared data without the lock, consumes a value, or keeps a reference;
+ - modernisations: replacing hand-written code by a standard-library or `x/` helper (slices, maps, sync.Once/OnceFunc, context.AfterFunc/WithoutCancel, errors.Join, atomic types)
+   whose semantics differ in a corner."""
+
+NSTEER2 = """ - control-flow restructuring: guard clauses ↔ nested ifs, `switch` ↔ if-chains, a loop with `break` ↔ a loop condition, labelled `continue` ↔ a flag, an early `return` ↔ `else`,
+   De Morgan rewrites of a compound condition, splitting a compound condition into two ifs (same evaluation order);
+ - modernisation that keeps the meaning: `interface{}` ↔ `any`, `min`/`max` builtins, `slices`/`maps` helpers that do exactly what the loop did, `for range n`, `errors.Is` for `==` on
+   sentinel errors that are never wrapped, `strings.Builder`, `time.Since`, struct tags and comments;
+ - dead-code and duplication clean-up: removing an unreachable branch or a variable that is written and never read, merging two identical blocks into one private helper with
+   ONE call site each… or inlining a trivial private helper; moving a declaration closer to its use; renaming a result or a receiver."""
+
+
 def main():
     ap = argparse.ArgumentParser()
+    ap.add_argument("--steer", type=int, default=1)
+    ap.add_argument("--shift", type=int, default=0, help="rotate the pairing of properties to groups")
     ap.add_argument("root")
     ap.add_argument("--breaking", type=int, default=3)
     ap.add_argument("--neutral", type=int, default=3)
@@ -96,13 +115,19 @@ def main():
         if ch:
             collected.setdefault(m["property"], []).append(ch[:230])
     os.makedirs(a.root, exist_ok=True)
-    for g, ids in GROUPS.items():
+    groups = dict(GROUPS)
+    if a.shift:
+        firsts = [v[0] for v in GROUPS.values()]
+        seconds = [v[1] for v in GROUPS.values()]
+        seconds = seconds[a.shift % len(seconds):] + seconds[:a.shift % len(seconds)]
+        groups = {g: [firsts[i], seconds[i]] for i, g in enumerate(GROUPS)}
+    for g, ids in groups.items():
         d = os.path.join(a.root, g)
         wt, out = os.path.join(d, "wt"), os.path.join(d, "out")
         os.makedirs(out, exist_ok=True)
         if not os.path.exists(wt):
             subprocess.check_call(["git", "-C", "/repo", "worktree", "add", "--detach", "-q", wt, "HEAD"])
-        txt = HEAD.format(wt=wt, out=out, root=a.root, nb=a.breaking, nn=a.neutral, bsteer=BSTEER, nsteer=NSTEER)
+        txt = HEAD.format(wt=wt, out=out, root=a.root, nb=a.breaking, nn=a.neutral, bsteer=BSTEER2 if a.steer == 2 else BSTEER, nsteer=NSTEER2 if a.steer == 2 else NSTEER)
         for i in ids:
             p = props[i]
             txt += f"\n### Property {i} — {p['title']}\n\nStatement: {p['statement']}\n\nQuantified over: {p['quantifier']['text']}\n\n"
